@@ -87,7 +87,14 @@ def verify(acc, pendulum, r, z, inst, sub, case, name=True, ts=False):
             return False
     if type(r) is not pendulum.DateTime:
         acc.mismatch(sub, "type", case, type(r).__name__, "DateTime")
+    # the library's own spellings of the UTC offset
+    acc2 = (r.offset, r.get_offset(), r.offset_hours, r.is_utc())
+    want2 = (exp_o, exp_o, exp_o / 60 / 60, exp_o == 0)
+    if acc2 != want2:
+        acc.mismatch(sub, "offset-accessors", case, list(acc2), list(want2))
     if ts:
+        if r.float_timestamp != inst / US:
+            acc.mismatch(sub, "float_timestamp", case, r.float_timestamp, inst / US)
         it = r.int_timestamp
         if it != inst // US:
             acc.mismatch(sub, "int_timestamp", case, it, inst // US)
